@@ -48,6 +48,15 @@ def main():
                         for p in range(nparts if not quick else (2 if impl == 'py' and not is_set else 1)):
                             plan.append(dict(fam=fam, impl=impl, is_set=is_set, leaf=lf, internal=it, dump=fn,
                                              part=(p + len(plan)) % nparts, nparts=nparts, pure=(impl == 'py')))
+        if flavour == 'plain':
+            # the same behaviours on a *stored* tree (committed when the cursor is opened and at the end): the contents a fresh
+            # reader sees afterwards are the contents implied by the mutations
+            for (fn, n, lf, it) in sims:
+                for fam in fams[:2]:
+                    for impl in ('c', 'py'):
+                        for is_set in (True, False):
+                            plan.append(dict(fam=fam, impl=impl, is_set=is_set, leaf=lf, internal=it, dump=fn, persist=True,
+                                             part=len(plan) % 2, nparts=2 if quick else 1, pure=(impl == 'py')))
         results = jobs.run_jobs('harness.workers.iter_worker', plan, flavour=flavour, pure=True)
         outcomes = {}
         for job, res, err in results:
@@ -57,6 +66,7 @@ def main():
                 continue
             for k in ('behaviours', 'steps', 'cursor_steps'):
                 ck.bump('%s_%s' % (flavour, k), res['counts'][k])
+            ck.bump('%s_persist_checked' % flavour, res['counts'].get('persist_checked', 0))
             for k, v in res['counts']['outcomes'].items():
                 outcomes[k] = outcomes.get(k, 0) + v
             ck.add_traces(res['counts']['behaviours'])
